@@ -777,7 +777,14 @@ fn gen_request(rng: &mut Rng, allow_sub: bool) -> String {
 		let j = rng.below(i as u64 + 1) as usize;
 		members.swap(i, j);
 	}
-	let body: Vec<String> = members.iter().map(|(k, v)| format!("{}\"{}\"{}:{}{}", ws(rng), k, ws(rng), ws(rng), v)).collect();
+	// member names are JSON strings too: now and then spelled with escapes (`"\u0069d"` is the member `id`)
+	let body: Vec<String> = members
+		.iter()
+		.map(|(k, v)| {
+			let key = if rng.chance(1, 12) { spell_string(rng, k) } else { format!("\"{k}\"") };
+			format!("{}{}{}:{}{}", ws(rng), key, ws(rng), ws(rng), v)
+		})
+		.collect();
 	format!("{{{}{}}}{}", body.join(","), ws(rng), ws(rng))
 }
 
